@@ -104,6 +104,8 @@ static void do_op(const char *op)
     else if (!strcmp(op, "mkfile")) op_mkfile();
     else if (!strcmp(op, "unlink")) { char p[700]; path_of(p, sizeof p, "path"); rc = unlink(p); OUT(" rc=%d", rc); }
     else if (!strcmp(op, "ls")) op_ls();
+    else if (!strcmp(op, "mkdir")) op_mkdir();
+    else if (!strcmp(op, "lsdir")) op_lsdir();
     else if (!strcmp(op, "ledger")) op_ledger();
     else if (!strcmp(op, "malloc_list")) { fflush(stdout); rc = ncmpi_inq_malloc_list(); fflush(stdout); OUT(" rc=%d", rc); }
     else if (!strcmp(op, "disk_numrecs")) op_disk_numrecs();
